@@ -229,6 +229,59 @@ func TestWire(t *testing.T) {
 			}
 		}
 	}
+	// small-scope grid (exhaustive): every buffer length 0..72 x every announced total length 0..74 x IHL {0,4,5,6,7,15} of an
+	// otherwise valid header; likewise the UDP length field against the bytes supplied
+	decipCase := func(f []byte, kind string) {
+		ans := implDecIP(f)
+		s.Op("decip b="+Hex(f), ans, ans[:2] == "ok")
+		panicFind(s, "decip b="+Hex(f), ans, "C13", "C10")
+		s.Count("decip/" + kind + "/" + ans[:2])
+		_, refErr := RefParseIPv4(f)
+		if (refErr == nil) != (ans[:2] == "ok") {
+			s.Find(Finding{Property: "C13", Signature: "decip-strict:" + kind, What: "DecodeIPv4 and the reference parser disagree on whether length fields match the bytes supplied",
+				Ops: []string{"decip b=" + Hex(f)}, Observed: ans})
+		}
+	}
+	for bl := 0; bl <= 72; bl++ {
+		for tl := 0; tl <= 74; tl++ {
+			for _, ihl := range []int{0, 4, 5, 6, 7, 15} {
+				f := make([]byte, bl)
+				for i := range f {
+					f[i] = byte(0xa0 + i)
+				}
+				if bl > 0 {
+					f[0] = 0x40 | byte(ihl)
+				}
+				if bl > 3 {
+					f[2], f[3] = byte(tl>>8), byte(tl)
+				}
+				if bl > 9 {
+					f[9] = 0x11
+				}
+				decipCase(f, "grid")
+			}
+		}
+	}
+	for bl := 0; bl <= 40; bl++ {
+		for ul := 0; ul <= 42; ul++ {
+			u := make([]byte, bl)
+			for i := range u {
+				u[i] = byte(0x30 + i)
+			}
+			if bl > 5 {
+				u[4], u[5] = byte(ul>>8), byte(ul)
+			}
+			ans := implDecUDP(u)
+			s.Op("decudp b="+Hex(u), ans, ans[:2] == "ok")
+			panicFind(s, "decudp b="+Hex(u), ans, "C13", "C10")
+			s.Count("decudp/grid/" + ans[:2])
+			ok := len(u) >= 8 && (int(u[4])<<8|int(u[5])) == len(u)
+			if ok != (ans[:2] == "ok") {
+				s.Find(Finding{Property: "C13", Signature: "decudp-strict", What: "DecodeUDP accepts/rejects against its length field",
+					Ops: []string{"decudp b=" + Hex(u)}, Observed: ans})
+			}
+		}
+	}
 	// buffers longer than a 16-bit length field can express: the announced length is congruent to, but not equal to, the bytes supplied
 	for _, k := range []int{20, 28, 40, 300} {
 		f := make([]byte, 65536+k)
